@@ -489,7 +489,7 @@ _rename = _pair('c14', 'rename', (120, 300), 'new origin<2**30, rename or not, n
                 replay=ST + 'replay_rename', validate=ST + 'replay_rename')
 _cachekey = _pair('c14', 'cache_key', (300, 600), 'every memoised function found by introspection x 7 codes x 13x13 values (1, 1.0, True, ...): keys equal => uncached results equal',
                   ['write_struct', 'ushort'], replay=ST + 'replay_cache_key', validate=ST + 'replay_cache_key', shards=(4, 4))
-_enthist = _pair('c14', 'entry_history', (120, 300), 'write_struct with the real lru caches: 10 codes x every ordered pair of equal (==) values out of 22 (0.0/-0.0, 1/1.0/True, ...): b after a == b as in a fresh process',
+_enthist = _pair('c14', 'entry_history', (120, 300), 'write_struct with the real lru caches: 11 codes (incl. DTIME) x every ordered pair of equal (==) values out of 26 (0.0/-0.0, 1/1.0/True, naive date-times differing in fold under a TZ rule with a clock set-back, ...): b after a == b as in a fresh process (finite, exhaustive)',
                  ['write_struct'], replay=PLAIN)
 _idem = _pair('c14', 'idempotent', (400, 1500), 'every attribute signature (thorough: every site) x multiplicity x small values: encode twice', ['EFLRItem.make_item_body_bytes',
               'ParameterItem._run_checks_and_set_defaults', 'ComputationItem._run_checks_and_set_defaults', 'ChannelItem._run_checks_and_set_defaults',
